@@ -14,6 +14,7 @@ package vs
 import (
 	"fmt"
 	"os"
+	"reflect"
 	"runtime"
 	"runtime/debug"
 	"strconv"
@@ -115,6 +116,7 @@ type op struct {
 	enabled    func() bool
 	apply      func()
 	pure       bool // apply (if any) does not touch any history hash: the successor key is predictable
+	strict     bool // environment op that is charged as an early injection even when its goroutine holds the token (EnvQuiesce)
 	desc       string
 }
 
@@ -158,6 +160,8 @@ type item struct {
 
 type chanModel struct {
 	seq        int
+	id         uintptr      // identity of the real channel (tap.go)
+	elem       reflect.Type // element type (tap.go)
 	keep       any
 	cap        int
 	buf        []item
@@ -216,6 +220,8 @@ type sched struct {
 	ch       chooser
 	maxSteps int
 	tmrOrder TimerOrder
+	delay    bool // Options.DelayBounded
+	lazyTmr  bool // Options.LazyTimers
 
 	status     Status
 	errMsg     string
@@ -229,6 +235,7 @@ type sched struct {
 	finish  func() // called by the controller after the execution ended, before cleanup
 	tracing bool
 	trace   []string
+	tap     func(TapEvent) // tap.go
 }
 
 // active is the execution in progress (nil = pass-through mode).
@@ -657,6 +664,9 @@ func (s *sched) enabled() []trans {
 			if t.fn == nil && len(t.cm.buf) >= t.cm.cap {
 				continue // a tick into a full channel is dropped: no state change
 			}
+			if s.lazyTmr && t.fn == nil && !s.timerObserved(t) {
+				continue
+			}
 			ts = append(ts, trans{kind: tTimer, tm: t})
 		}
 	}
@@ -670,7 +680,10 @@ func (s *sched) enabled() []trans {
 		if !t.isEnv() {
 			sysEnabled = true
 		}
-		if cur != nil && cur.class != ClassEnv && t.involves(cur) {
+		// (only a NON-environment transition of cur makes the others preemptions: if cur's sole enabled
+		// transition is a rendezvous with a parked environment goroutine, that one is an early
+		// injection, and charging the rest as preemptions would leave no zero-cost alternative)
+		if cur != nil && cur.class != ClassEnv && t.involves(cur) && !t.isEnv() {
 			curEnabled = true
 		}
 	}
@@ -679,14 +692,54 @@ func (s *sched) enabled() []trans {
 		if t.isEnv() {
 			// one unit per switch *to* the environment while the system is not quiescent;
 			// an environment goroutine that keeps the token continues for free
-			if sysEnabled && !(cur != nil && cur.class == ClassEnv && t.involves(cur)) {
+			// (except at an EnvQuiesce point, which is charged like a switch)
+			if sysEnabled && !(cur != nil && cur.class == ClassEnv && t.involves(cur) && !(t.kind == tOp && t.g.op.strict)) {
 				t.de = 1
 			}
 		} else if curEnabled && !t.involves(cur) {
 			t.dp = 1
 		}
 	}
+	if s.delay && !curEnabled && sysEnabled {
+		// delay bounding: cur cannot continue; the first enabled non-environment goroutine (ts is in
+		// creation order) is the canonical successor, every other goroutine is a deviation
+		var canon *G
+		for i := range ts {
+			if t := &ts[i]; !t.isEnv() {
+				if canon == nil {
+					canon = t.g
+				}
+				if !t.involves(canon) {
+					t.dp = 1
+				}
+			}
+		}
+	}
 	return ts
+}
+
+// timerObserved: some goroutine is parked on a receive that includes the timer's channel, or is
+// about to Stop/Reset it (Options.LazyTimers).
+func (s *sched) timerObserved(t *Timer) bool {
+	for _, g := range s.gs {
+		o := g.op
+		if o == nil {
+			continue
+		}
+		switch o.kind {
+		case kSelect:
+			for i := range o.cases {
+				if c := &o.cases[i]; c.cm == t.cm && !c.send {
+					return true
+				}
+			}
+		case kSimple:
+			if o.obj == &t.obj {
+				return true
+			}
+		}
+	}
+	return false
 }
 
 func (s *sched) applyCase(g *G, ci int) {
@@ -704,6 +757,9 @@ func (s *sched) applyCase(g *G, ci int) {
 		cm.sendH = cm.sendH.foldH(h)
 		cm.buf = append(cm.buf, item{v: c.val, stamp: h})
 		cm.nsend++
+		if s.tap != nil {
+			s.tap(TapEvent{G: g.id, Send: true, Chan: cm.id, Elem: cm.elem, Val: c.val})
+		}
 		return
 	}
 	if len(cm.buf) > 0 {
@@ -713,6 +769,9 @@ func (s *sched) applyCase(g *G, ci int) {
 		cm.nrecv++
 		g.rv, g.rok = it.v, true
 		s.setH(g, g.h.fold2(cRecvBuf, uint64(ci)).foldH(it.stamp))
+		if s.tap != nil {
+			s.tap(TapEvent{G: g.id, Chan: cm.id, Elem: cm.elem, Val: it.v})
+		}
 		return
 	}
 	// closed
@@ -796,6 +855,10 @@ func (s *sched) apply(t *trans) *G {
 		sd.op = nil
 		r.op = resumeOp
 		s.npending++
+		if s.tap != nil {
+			s.tap(TapEvent{G: sd.id, Send: true, Chan: sc.cm.id, Elem: sc.cm.elem, Val: sc.val})
+			s.tap(TapEvent{G: r.id, Chan: sc.cm.id, Elem: sc.cm.elem, Val: sc.val})
+		}
 		return sd
 	}
 	panic("vs: bad transition")
